@@ -16,6 +16,7 @@ fn factory(model: &str) -> Option<Factory> {
         "agenda" => Box::new(|c: &Value| Box::new(models::agenda::AG::new(c)) as Box<dyn Model>),
         "checkpoint" => Box::new(|c: &Value| Box::new(models::checkpoint::CK::new(c)) as Box<dyn Model>),
         "windows" => Box::new(|c: &Value| Box::new(models::windows::WN::new(c)) as Box<dyn Model>),
+        "join" => Box::new(|c: &Value| Box::new(models::join::JN::new(c)) as Box<dyn Model>),
         _ => return None,
     })
 }
@@ -52,6 +53,7 @@ fn main() {
         }
         Some("fireloop") => models::fireloops::cmd_fireloop(&args),
         Some("ckcrash") => models::checkpoint::cmd_ckcrash(&args),
+        Some("joinrec") => models::join::cmd_joinrec(&args),
         Some("kbstress") => models::kb::cmd_stress(&args),
         _ => {
             eprintln!("usage: vh replay|replay-one <model> <file> [opts]");
